@@ -285,15 +285,18 @@ impl ConnectionState {
             AMQPFrame::Method(n, AMQPClass::Basic(AmqpBasic::CancelOk(cancel_ok))) => {
                 let slot = slot_get_mut(inner, n)?;
                 let consumer = slot.consumers.remove(&cancel_ok.consumer_tag);
+                // Tell the consumer before releasing the caller of cancel(): once that
+                // call returns, the consumer (and with it the receiving end of this
+                // channel) may be dropped at any moment.
+                if let Some(tx) = consumer {
+                    send(&tx, ConsumerMessage::ClientCancelled)?;
+                }
                 send(
                     &slot.tx,
                     Ok(ChannelMessage::Method(AMQPClass::Basic(
                         AmqpBasic::CancelOk(cancel_ok),
                     ))),
                 )?;
-                if let Some(tx) = consumer {
-                    send(&tx, ConsumerMessage::ClientCancelled)?;
-                }
             }
             // Server beginning delivery of content to a consumer.
             AMQPFrame::Method(n, AMQPClass::Basic(AmqpBasic::Deliver(deliver))) => {
